@@ -65,6 +65,8 @@ package logic
 //   4. opcodes.go  gload loses .only(ModeApp)                                 -> spec-vs-table + not-gated (sig mode)
 //   5. eval.go     txnFieldToStack: v5 "effects only through itxn" test off   -> not-gated (needs the examined
 //                  call to be the 2nd group member reading gtxn 0 Logs)
+//   seeded C34-A and C34-B (checkStep's aligned-target loop only for instructions with a layout
+//   checker: forward branch into an immediate of load/intc/txn/gtxn/...)  -> part 3
 //
 // Unexported identifiers used: OpSpecs, opsByOpcode (indirectly through Check/Eval), OpSpec.op,
 // immediate.kind/Group, immKind constants, FieldGroup.specs via SpecByName, ItxnSettableFields,
